@@ -426,6 +426,9 @@ func (self *visitorUserNode) OnObjectBegin(capacity int) error {
 				return err
 			}
 		}
+		// the pending field is now described by the frame on the stack; leaving it set would make
+		// the members (or the end) of this object be taken for the value of that field
+		self.globalFieldDesc = nil
 	}
 	return err
 }
@@ -579,6 +582,8 @@ func (self *visitorUserNode) OnArrayBegin(capacity int) error {
 		if err = self.push(false, false, true, self.globalFieldDesc, curNodeLenPos); err != nil {
 			return err
 		}
+		// the elements take their descriptor from the frame on the stack
+		self.globalFieldDesc = nil
 	}
 	return err
 }
